@@ -10,7 +10,7 @@
 From Coq Require Import ZArith List Bool.
 From Model Require Import PyBase Graph PeriodicTable Valence Kekule Thiele.
 From Gen Require Import Elements KekuleCls ThieleCls ThielePost KekuleComp.
-From Proofs Require Import KekuleProofs KekuleExt KekuleValence KekuleThiele KekuleSound KekuleLink KekulePrep KekuleGenTie KekuleTrace ThielePostTie ThieleFuel KekuleCompTie ThieleFrame.
+From Proofs Require Import KekuleProofs KekuleExt KekuleValence KekuleThiele KekuleSound KekuleLink KekulePrep KekuleGenTie KekuleTrace ThielePostTie ThieleFuel KekuleCompTie ThieleFrame ThieleDonors.
 Import ListNotations.
 Open Scope Z_scope.
 
@@ -521,3 +521,23 @@ Theorem C05_kekule_component_src_sound : forall rings db db_start pyr bs maxy fu
   forallb (form_sound rings db pyr) ys = true.
 Proof. exact kekule_component_src_sound. Qed.
 Print Assumptions C05_kekule_component_src_sound.
+
+(* ---- ROUND 5: the loop over the hydrogen donors of thiele(fix_tautomers=True): a donor from which the search finds no alternating
+   path to an acceptor is skipped and the remaining donors are processed exactly as if it were not there (the search checks the
+   same on the real code: molecules with an unfixable donor before and after a fixable one, conversions commute with split()). *)
+Theorem C05_taut_donors_skips_unfixable : forall fuel ords dbl start rest g acc pyr,
+  taut_dfs fuel g ords dbl acc (donor_seed ords dbl start) [] [start] = None ->
+  taut_donors fuel ords dbl (start :: rest) g acc pyr = taut_donors fuel ords dbl rest g acc pyr.
+Proof. exact taut_donors_skips_unfixable. Qed.
+Print Assumptions C05_taut_donors_skips_unfixable.
+
+Theorem C05_taut_donors_all_unfixable : forall fuel ords dbl donors g acc pyr,
+  (forall start, In start donors -> taut_dfs fuel g ords dbl acc (donor_seed ords dbl start) [] [start] = None) ->
+  taut_donors fuel ords dbl donors g acc pyr = (g, acc, pyr).
+Proof. exact taut_donors_all_unfixable. Qed.
+Print Assumptions C05_taut_donors_all_unfixable.
+
+Theorem C05_donors_skip_example : forall rest g acc pyr,
+  taut_donors 5 [(1, [])] [] (1 :: rest) g acc pyr = taut_donors 5 [(1, [])] [] rest g acc pyr.
+Proof. exact donors_skip_example. Qed.
+Print Assumptions C05_donors_skip_example.
